@@ -20,7 +20,7 @@ TRANSLATE = True
 TRANSLATE_ALGO = ["AlgoTraverse", "AlgoNode", "AlgoBranches", "AlgoSubtree", "AlgoLMeasure", "AlgoSholl", "AlgoFeatFront", "AlgoBranchTree", "AlgoNodeFeat", "AlgoNodeBranch", "AlgoLmGeo"]
 DRIVER_FILES = ["SwcVerif/Model/AlgoRunLMeasure.lean", "SwcVerif/Model/AlgoRunLmGeo.lean", "SwcVerif/Model/PyLmGeo.lean", "SwcVerif/Model/PyMore.lean", "SwcVerif/Model/AlgoRunSholl.lean", "SwcVerif/Model/PySholl.lean",
                 "SwcVerif/Model/PyResample.lean", "SwcVerif/Model/AlgoRunNodeFeat.lean", "SwcVerif/Model/PyNodeFeat.lean"]
-LEAN_MODS = ["SwcVerif.Props.C10", "SwcVerif.Proofs.Represent", "SwcVerif.Props.C10Gen", "SwcVerif.Props.C10Sholl", "SwcVerif.Props.C10NodeFeat"]
+LEAN_MODS = ["SwcVerif.Props.C10", "SwcVerif.Proofs.Represent", "SwcVerif.Props.C10Gen", "SwcVerif.Props.C10Sholl", "SwcVerif.Props.C10NodeFeat", "SwcVerif.Props.C10LmGeo"]
 THEOREMS = [
     "C10.length_eq_sum_edges", "C10.chainLength_eq", "C10.length_eq_sum_branches", "C10.branches_eq", "C10.counts", "C10.path_distance_eq_sum",
     "C10.branch_order_eq_furcations_on_path", "C10.terminal_degree_eq_tips_below", "C10.sholl_eq_straddle_count", "C10.partition_asymmetry_def",
@@ -42,9 +42,21 @@ THEOREMS = [
     "RefineNf.radial_refines", "RefineNf.node_count_refines",
     "C10.generated_tree_length", "C10.generated_tortuosity", "C10.generated_straight_line_distance", "C10.generated_radial_distance",
     "C10.generated_node_count",
+    # refinement (T21 `lmgeo`): the geometric L-Measure functions generated from lmeasure.py / node.py / path.py on this run
+    "RefineLmGeo.node_xyz_eq", "RefineLmGeo.node_distance_eq", "RefineLmGeo.pathDistance_refines", "RefineLmGeo.eucDistance_refines",
+    "RefineLmGeo.diameter_refines", "RefineLmGeo.rallPowerD_refines", "RefineLmGeo.rallPowerD_not_bif", "RefineLmGeo.rallPowerD_root",
+    "RefineLmGeo.pk2_refines", "RefineLmGeo.bifVectorLocal_refines", "RefineLmGeo.bifVectorLocal_not_bif", "RefineLmGeo.bifAmplLocal_refines",
+    "RefineLmGeo.pathLength_refines", "RefineLmGeo.branchPathlength_refines", "RefineLmGeo.contraction_refines", "RefineLmGeo.taper1_refines",
+    "RefineLmGeo.taper2_refines",
+    "C10.generated_path_distance", "C10.generated_euc_distance", "C10.generated_diameter", "C10.generated_rall_power_d", "C10.generated_pk_2",
+    "C10.generated_bif_ampl_local", "C10.generated_branch_measures", "C10.generated_contraction_of_node_branch",
 ]
 TRUSTED = ["hand-written models Model/Features.lean (lengths as sums of edge lengths, counts, orders, Sholl straddle rule), tied by the c10.features correspondence "
-           "(exact on lattice trees whose edges are axis-aligned with integer length); partition_asymmetry is regenerated from lmeasure.py (Gen/LMeasureArith.lean)"]
+           "(exact on lattice trees whose edges are axis-aligned with integer length); partition_asymmetry is regenerated from lmeasure.py (Gen/LMeasureArith.lean)",
+           "geometric L-Measure functions (Gen/AlgoLmGeo.lean, harness/algo_specs/41_lmgeo.py): the Euclidean norm, `np.degrees` and the module-level `angle` are "
+           "pure parameters; glue: a Path's `self.xyz()` = the rows of the tree's coordinate columns at the path's indices, `branch[0]` / `branch[-1]` = the "
+           "tree node at that entry of the branch's index list, `branch.length()` = the translated Path.length; the c10.lmgeo correspondence runs the real "
+           "functions with numpy.linalg.norm replaced by the sum of squares (exact on integer lattices)"]
 ASSUMPTIONS = ["square roots / float32 accumulation are outside the model (values compared with relative tolerance 1e-5)",
                "tortuosity is the library's documented ratio straight-line distance / path length (1 for a zero-length path)",
                "arccos / degrees of the bifurcation angles are monotone externals: the oracle compares angles computed from the dot-product definition",
